@@ -6,6 +6,7 @@ package state
 import (
 	"errors"
 	"fmt"
+	"sort"
 	"strings"
 
 	memdb "github.com/hashicorp/go-memdb"
@@ -1231,7 +1232,16 @@ func validateProposedConfigEntryInServiceGraph(
 		svcTopNodeType              = make(map[structs.ServiceID]string)
 		exportedServicesByPartition = make(map[string]map[structs.ServiceName]struct{})
 	)
+	// Visit the chains in a stable order so that, when several of them are
+	// invalid, every server reports the same error for the same write.
+	checkChainIDs := make([]structs.ServiceID, 0, len(checkChains))
 	for serviceID := range checkChains {
+		checkChainIDs = append(checkChainIDs, serviceID)
+	}
+	sort.Slice(checkChainIDs, func(i, j int) bool {
+		return checkChainIDs[i].String() < checkChainIDs[j].String()
+	})
+	for _, serviceID := range checkChainIDs {
 		chain, err := testCompileDiscoveryChain(tx, serviceID.ID, overrides, &serviceID.EnterpriseMeta)
 		if err != nil {
 			return err
